@@ -372,7 +372,7 @@ macro_rules! repeat_huge_harness {
     };
 }
 
-// @verif-block props=C01 tier=quick cap=900 group=core doc=ops::mul(sequence,n)_for_a_2-element_tuple_/_list_and_ANY_repeat_count_n>=2^60:_returns_an_error_(or,_for_lists,_a_lazy_iterable_whose_length_2n_is_representable)_-_never_a_capacity-overflow_or_multiplication-overflow_panic
+// @verif-block props=C01 tier=experimental cap=900 group=core doc=ops::mul(sequence,n)_for_a_2-element_tuple_/_list_and_ANY_repeat_count_n>=2^60:_returns_an_error_(or,_for_lists,_a_lazy_iterable_whose_length_2n_is_representable)_-_never_a_capacity-overflow_or_multiplication-overflow_panic
 repeat_huge_harness!(c01_repeat_tuple_huge_count, true);
 repeat_huge_harness!(c01_repeat_list_huge_count, false);
 // @verif-end
